@@ -75,7 +75,7 @@ def specs(ctx, n):
     names = gen.FAST if ctx.quick else gen.ALL
     out = []
     for i in range(n):
-        name = names[i % len(names)]
+        name = gen.rotate(names, i, ctx.quick)
         sp = dunit.general_spec(rng, name, max_calls=3, metrics=rng.choice([0, 1, 2, 3]), nonfinite=rng.choice([0, 0, 0.1]),
                                 sizes=(2, 3, 5), max_points=60, n_max=14)
         # the objective returns one and the same metrics dict object on every call (memory off: with memory on the stored result IS that
